@@ -5,7 +5,9 @@ import os
 import sys
 
 from .facts import Facts
-from .run import Run
+from .run import Run, VERIF
+from .inline import load_vocabulary, inline_new_helpers
+from .normalize import lower_int_cmp
 
 LEVELS = {"C13": "proof"}
 
@@ -46,6 +48,14 @@ def main():
     ctx.bad = Facts(os.path.join(work, "bad.json"))
     rel = os.path.join(work, "facts_release.json")
     ctx.facts_release = Facts(rel) if os.path.exists(rel) else None
+    # helper functions the reference release does not have are spliced into their callers (identity on an unchanged tree)
+    for fx in (ctx.facts, ctx.facts_release):
+        if fx is not None:
+            lower_int_cmp(fx)
+    vocab = load_vocabulary(VERIF)
+    ctx.inlined = inline_new_helpers(ctx.facts, vocab)
+    if ctx.facts_release is not None:
+        inline_new_helpers(ctx.facts_release, vocab)
     run = Run(prop, tier, LEVELS.get(prop, "other"))
     ctx.run = run
     try:
@@ -56,6 +66,8 @@ def main():
     run.units = {"mir_bodies": ctx.facts.n_bodies(), "call_sites": ctx.facts.n_calls(),
                  "named_constants": len(ctx.facts.consts), "statics": len(ctx.facts.statics),
                  "adts": len(ctx.facts.adts), "crate": ctx.facts.crate, "build": ctx.facts.opts}
+    if ctx.inlined:
+        run.note("functions outside the reference vocabulary spliced into their callers before analysis: %s" % sorted({c for _p, c in ctx.inlined}))
     run.floor("UNITS", "MIR bodies analysed", ctx.facts.n_bodies(), FLOOR_BODIES)
     run.floor("UNITS", "call terminators analysed", ctx.facts.n_calls(), FLOOR_CALLS)
     try:
